@@ -8,13 +8,15 @@ namespace Grcov.Pipeline
 def cntW (w : W) (x : Item) : Nat :=
   match w with
   | .holding y => if y = x then 1 else 0
+  | .batch y => if y = x then 1 else 0
   | _ => 0
 
 theorem held_cons (w : W) (ws : List W) (x : Item) :
     (held (w :: ws)).count x = cntW w x + (held ws).count x := by
   cases w <;> simp [held, cntW, List.count_cons]
-  rename_i y
-  by_cases h : y = x <;> simp [h] <;> omega
+  all_goals
+    rename_i y
+    by_cases h : y = x <;> simp [h] <;> omega
 
 /-- replacing slot `w` exchanges its contribution -/
 theorem held_set (ws : List W) (w : Nat) (new : W) (x : Item) (hw : w < ws.length) :
@@ -43,12 +45,26 @@ theorem cnt_eq (s : State) (x : Item) :
       + s.merged.count x + s.rejected.count x + s.lost.count x := by
   simp only [cnt, everywhere, List.count_append]
 
-/-- one enabled step never creates, duplicates or destroys an item -/
-theorem step_cnt (fate : Item → Fate) (s : State) (st : Step) (he : enabled s st = true) (x : Item) :
-    cnt (step fate s st) x = cnt s x := by
+/-- a step that rewrites one worker slot and appends to the three result lists -/
+theorem cnt_slot (s : State) (w : Nat) (old new : W) (m r l : List Item) (o : Option Nat) (p : Bool)
+    (lg : List (Item × Nat)) (x : Item) (hh : s.workers.getD w .exited = old) (hne : old ≠ .exited) :
+    cnt { s with workers := s.workers.set w new, merged := s.merged ++ m, rejected := s.rejected ++ r,
+                 lost := s.lost ++ l, owner := o, poisoned := p, log := lg } x + cntW old x
+      = cnt s x + cntW new x + m.count x + r.count x + l.count x := by
+  have hw : w < s.workers.length := getD_ne_default_lt (by rw [hh]; exact hne)
+  have := held_set s.workers w new x hw
+  rw [hh] at this
   rw [cnt_eq, cnt_eq]
+  simp only [queueItems, List.count_append]
+  omega
+
+/-- one enabled step never creates, duplicates or destroys an item -/
+theorem step_cnt (fate : Item → Fate) (size : Item → Nat) (s : State) (st : Step)
+    (he : enabled size s st = true) (x : Item) :
+    cnt (step fate s st) x = cnt s x := by
   cases st with
   | prodSend =>
+    rw [cnt_eq, cnt_eq]
     simp only [step]
     cases htodo : s.todo with
     | nil => simp [htodo]
@@ -58,8 +74,10 @@ theorem step_cnt (fate : Item → Fate) (s : State) (st : Step) (he : enabled s 
       · simp [queueItems, List.filterMap_append, List.count_append, List.count_cons]
         omega
       · simp [htodo, queueItems]
-  | prodExit => simp [step, queueItems]
+  | prodExit => rw [cnt_eq, cnt_eq]; simp [step, queueItems]
+  | prodDies => rw [cnt_eq, cnt_eq]; simp [step, queueItems]
   | recv w =>
+    rw [cnt_eq, cnt_eq]
     simp only [enabled, Bool.and_eq_true, beq_iff_eq] at he
     have hidle := he.1.2
     have hw : w < s.workers.length := getD_ne_default_lt (by rw [hidle]; decide)
@@ -78,32 +96,82 @@ theorem step_cnt (fate : Item → Fate) (s : State) (st : Step) (he : enabled s 
         rw [hidle] at this
         simp [queueItems, hq, cntW] at this ⊢
         omega
-  | finish w =>
+  | parsed w =>
     simp only [step]
     cases hh : s.workers.getD w .exited with
     | holding y =>
-      have hw : w < s.workers.length := getD_ne_default_lt (by rw [hh]; intro h; cases h)
       simp only
       cases fate y with
       | ok =>
-        have := held_set s.workers w .idle x hw
-        rw [hh] at this
-        simp [queueItems, List.count_append, List.count_cons, cntW] at this ⊢
-        omega
+        have := cnt_slot s w _ (.batch y) [] [] [] s.owner s.poisoned s.log x hh (by simp)
+        simp [cntW] at this ⊢; omega
       | reject =>
-        have := held_set s.workers w .idle x hw
-        rw [hh] at this
-        simp [queueItems, List.count_append, List.count_cons, cntW] at this ⊢
-        omega
+        have := cnt_slot s w _ .idle [] [y] [] s.owner s.poisoned s.log x hh (by simp)
+        simp [cntW, List.count_cons] at this ⊢; omega
       | die =>
-        have := held_set s.workers w .dead x hw
-        rw [hh] at this
-        simp [queueItems, List.count_append, List.count_cons, cntW] at this ⊢
-        omega
+        have := cnt_slot s w _ .dead [] [] [y] s.owner s.poisoned s.log x hh (by simp)
+        simp [cntW, List.count_cons] at this ⊢; omega
     | idle => simp
+    | batch _ => simp
+    | merging _ _ => simp
+    | exited => simp
+    | dead => simp
+  | lock w =>
+    simp only [step]
+    cases hh : s.workers.getD w .exited with
+    | batch y =>
+      simp only
+      split
+      · have := cnt_slot s w _ .dead [] [] [y] s.owner s.poisoned s.log x hh (by simp)
+        simp [cntW, List.count_cons] at this ⊢; omega
+      · have := cnt_slot s w _ (.merging y 0) [y] [] [] (some w) s.poisoned s.log x hh (by simp)
+        simp [cntW, List.count_cons] at this ⊢; omega
+    | idle => simp
+    | holding _ => simp
+    | merging _ _ => simp
+    | exited => simp
+    | dead => simp
+  | mergeEntry w =>
+    simp only [step]
+    cases hh : s.workers.getD w .exited with
+    | merging y j =>
+      have := cnt_slot s w _ (.merging y (j + 1)) [] [] [] s.owner s.poisoned (s.log ++ [(y, j)]) x hh (by simp)
+      simp [cntW] at this ⊢; omega
+    | idle => simp
+    | holding _ => simp
+    | batch _ => simp
+    | exited => simp
+    | dead => simp
+  | unlock w =>
+    simp only [step]
+    cases hh : s.workers.getD w .exited with
+    | merging y j =>
+      have := cnt_slot s w _ .idle [] [] [] none s.poisoned s.log x hh (by simp)
+      simp [cntW] at this ⊢; omega
+    | idle => simp
+    | holding _ => simp
+    | batch _ => simp
+    | exited => simp
+    | dead => simp
+  | workerDies w =>
+    simp only [step]
+    cases hh : s.workers.getD w .exited with
+    | idle =>
+      have := cnt_slot s w _ .dead [] [] [] s.owner s.poisoned s.log x hh (by simp)
+      simp [cntW] at this ⊢; omega
+    | holding y =>
+      have := cnt_slot s w _ .dead [] [] [y] s.owner s.poisoned s.log x hh (by simp)
+      simp [cntW, List.count_cons] at this ⊢; omega
+    | batch y =>
+      have := cnt_slot s w _ .dead [] [] [y] s.owner s.poisoned s.log x hh (by simp)
+      simp [cntW, List.count_cons] at this ⊢; omega
+    | merging y j =>
+      have := cnt_slot s w _ .dead [] [] [] none true s.log x hh (by simp)
+      simp [cntW] at this ⊢; omega
     | exited => simp
     | dead => simp
   | main =>
+    rw [cnt_eq, cnt_eq]
     simp only [step]
     split
     · split <;> simp [queueItems]
@@ -115,11 +183,11 @@ theorem step_cnt (fate : Item → Fate) (s : State) (st : Step) (he : enabled s 
       · split <;> simp [queueItems]
     · rfl
 
-theorem run_cnt {fate : Item → Fate} {s s' : State} {tr : List Step} (h : Run fate s tr s')
-    (x : Item) : cnt s' x = cnt s x := by
+theorem run_cnt {fate : Item → Fate} {size : Item → Nat} {s s' : State} {tr : List Step}
+    (h : Run fate size s tr s') (x : Item) : cnt s' x = cnt s x := by
   induction h with
   | nil => rfl
-  | cons he _ ih => rw [ih, step_cnt _ _ _ he]
+  | cons he _ ih => rw [ih, step_cnt _ _ _ _ he]
 
 theorem held_replicate_idle (n : Nat) : held (List.replicate n W.idle) = [] := by
   induction n with
@@ -133,6 +201,29 @@ theorem cnt_init (n : Nat) (rx : Bool) (items : List Item) (x : Item) :
 end Grcov.Pipeline
 
 namespace Grcov.Pipeline
+
+/-! ### the worker-local steps all have one shape -/
+
+def isSlotStep (w : Nat) : Step → Bool
+  | .parsed v | .lock v | .mergeEntry v | .unlock v | .workerDies v => v == w
+  | _ => false
+
+/-- `parsed`, `lock`, `mergeEntry`, `unlock`, `workerDies` either do nothing or rewrite the slot of
+one alive worker to a state other than `exited`, leaving producer, queue and main untouched -/
+theorem slot_step (fate : Item → Fate) (s : State) (st : Step) (w : Nat) (hst : isSlotStep w st = true) :
+    step fate s st = s ∨ ∃ new : W, new ≠ .exited ∧ (s.workers.getD w .exited).alive = true ∧
+      (step fate s st).workers = s.workers.set w new ∧ (step fate s st).queue = s.queue ∧
+      (step fate s st).mainPc = s.mainPc ∧ (step fate s st).n = s.n ∧ (step fate s st).todo = s.todo ∧
+      (step fate s st).prodDone = s.prodDone ∧ (step fate s st).prodDead = s.prodDead ∧
+      (step fate s st).rxMain = s.rxMain := by
+  cases st <;> simp only [isSlotStep, beq_iff_eq, Bool.false_eq_true] at hst
+  all_goals subst hst
+  all_goals simp only [step]
+  all_goals cases hh : s.workers.getD _ .exited
+  all_goals first
+    | exact Or.inl rfl
+    | (simp only; split <;> exact Or.inr ⟨_, by simp, by simp [W.alive], rfl, rfl, rfl, rfl, rfl, rfl, rfl, rfl⟩)
+    | exact Or.inr ⟨_, by simp, by simp [W.alive], rfl, rfl, rfl, rfl, rfl, rfl, rfl, rfl⟩
 
 /-! ### counting stop markers (needed for progress) -/
 
@@ -175,10 +266,46 @@ theorem any_alive_of_getD {ws : List W} {w : Nat} (h : (ws.getD w .exited).alive
   refine ⟨ws[w], List.getElem_mem hw, ?_⟩
   simpa [List.getD_eq_getElem?_getD, List.getElem?_eq_getElem hw] using h
 
-theorem step_stopInv (fate : Item → Fate) (s : State) (st : Step) (he : enabled s st = true)
-    (h : StopInv s) : StopInv (step fate s st) := by
+theorem alive_ne_exited {v : W} (h : v.alive = true) : v ≠ .exited := by
+  intro e; rw [e] at h; simp [W.alive] at h
+
+/-- rewriting the slot of an alive worker to a non-`exited` state keeps the bookkeeping -/
+theorem stopInv_slot (s s' : State) (w : Nat) (new : W) (hnew : new ≠ .exited)
+    (hold : (s.workers.getD w .exited).alive = true) (hws : s'.workers = s.workers.set w new)
+    (hq : s'.queue = s.queue) (hpc : s'.mainPc = s.mainPc) (hn : s'.n = s.n) (h : StopInv s) :
+    StopInv s' := by
+  obtain ⟨hlen, hm⟩ := h
+  have hw : w < s.workers.length := getD_ne_default_lt (alive_ne_exited hold)
+  have halive : anyAlive s = true := any_alive_of_getD hold
+  have hc := count_set_W s.workers w new .exited hw
+  have hne : ¬ s.workers.getD w .exited = .exited := alive_ne_exited hold
+  simp only [hne, if_false, hnew, Nat.add_zero] at hc
+  refine ⟨by rw [hws, hn]; simpa using hlen, ?_⟩
+  rw [hpc]
+  cases hpc' : s.mainPc with
+  | joinProd => rw [hpc'] at hm; simpa [nExited, hws, hq, hc] using hm
+  | stops k => rw [hpc'] at hm; simpa [nExited, hws, hq, hc, hn] using hm
+  | joinWorkers i =>
+    rw [hpc'] at hm; simp only at hm ⊢
+    rcases hm with hm | hm
+    · rw [hm] at halive; cases halive
+    · exact Or.inr (by simpa [nExited, hws, hq, hc, hn] using hm)
+  | done c => trivial
+
+theorem step_stopInv (fate : Item → Fate) (size : Item → Nat) (s : State) (st : Step)
+    (he : enabled size s st = true) (h : StopInv s) : StopInv (step fate s st) := by
+  have slot : ∀ w, isSlotStep w st = true → StopInv (step fate s st) := by
+    intro w hst
+    rcases slot_step fate s st w hst with e | ⟨new, hnew, hold, hws, hq, hpc, hn, _⟩
+    · rw [e]; exact h
+    · exact stopInv_slot s _ w new hnew hold hws hq hpc hn h
   obtain ⟨hlen, hm⟩ := h
   cases st with
+  | parsed w => exact slot w (by simp [isSlotStep])
+  | lock w => exact slot w (by simp [isSlotStep])
+  | mergeEntry w => exact slot w (by simp [isSlotStep])
+  | unlock w => exact slot w (by simp [isSlotStep])
+  | workerDies w => exact slot w (by simp [isSlotStep])
   | prodSend =>
     simp only [step]
     cases htodo : s.todo with
@@ -193,6 +320,7 @@ theorem step_stopInv (fate : Item → Fate) (s : State) (st : Step) (he : enable
         exact hm
       · exact ⟨hlen, hm⟩
   | prodExit => exact ⟨hlen, hm⟩
+  | prodDies => exact ⟨hlen, hm⟩
   | recv w =>
     simp only [enabled, Bool.and_eq_true, beq_iff_eq] at he
     have hidle := he.1.2
@@ -239,44 +367,6 @@ theorem step_stopInv (fate : Item → Fate) (s : State) (st : Step) (he : enable
           · exact absurd halive (by unfold anyAlive at *; rw [hm]; decide)
           · exact Or.inr (by omega)
         | done c => trivial
-  | finish w =>
-    simp only [step]
-    cases hh : s.workers.getD w .exited with
-    | holding y =>
-      have hw : w < s.workers.length := getD_ne_default_lt (by rw [hh]; intro h; cases h)
-      have halive : anyAlive s = true := any_alive_of_getD (by rw [hh]; rfl)
-      have key : ∀ new : W, new ≠ .exited →
-          StopInv { s with workers := s.workers.set w new } →
-          True := fun _ _ _ => trivial
-      have mk : ∀ new : W, new ≠ .exited →
-          (match s.mainPc with
-            | .joinProd => nNones s.queue + nExited (s.workers.set w new) = 0
-            | .stops k => k ≤ s.n ∧ nNones s.queue + nExited (s.workers.set w new) = k
-            | .joinWorkers _ => (s.workers.set w new).any W.alive = false ∨
-                nNones s.queue + nExited (s.workers.set w new) = s.n
-            | .done _ => True) := by
-        intro new hne
-        have hc := count_set_W s.workers w new .exited hw
-        rw [hh] at hc
-        simp only [reduceCtorEq, if_false, hne, Nat.add_zero] at hc
-        simp only [nExited, hc]
-        cases hpc : s.mainPc with
-        | joinProd => simpa [hpc, nExited] using hm
-        | stops k => simpa [hpc, nExited] using hm
-        | joinWorkers i =>
-          rw [hpc] at hm; simp only at hm ⊢
-          rcases hm with hm | hm
-          · exact absurd halive (by unfold anyAlive at *; rw [hm]; decide)
-          · exact Or.inr (by simpa [nExited] using hm)
-        | done c => trivial
-      simp only
-      cases fate y with
-      | ok => exact ⟨by simpa using hlen, mk .idle (by decide)⟩
-      | reject => exact ⟨by simpa using hlen, mk .idle (by decide)⟩
-      | die => exact ⟨by simpa using hlen, mk .dead (by decide)⟩
-    | idle => exact ⟨hlen, hm⟩
-    | exited => exact ⟨hlen, hm⟩
-    | dead => exact ⟨hlen, hm⟩
   | main =>
     simp only [step]
     cases hpc : s.mainPc with
@@ -318,6 +408,204 @@ end Grcov.Pipeline
 
 namespace Grcov.Pipeline
 
+/-! ### mutual exclusion on the result map -/
+
+def isMerging : W → Bool
+  | .merging _ _ => true
+  | _ => false
+
+/-- the mutex has an owner exactly when that worker is inside `add_results`; hence at most one
+worker is -/
+def MutexInv (s : State) : Prop :=
+  (∀ w, s.owner = some w → isMerging (s.workers.getD w .exited) = true) ∧
+  (∀ w, isMerging (s.workers.getD w .exited) = true → s.owner = some w)
+
+theorem getD_set_ne (ws : List W) (w j : Nat) (v d : W) (h : w ≠ j) :
+    (ws.set w v).getD j d = ws.getD j d := by
+  simp [List.getD_eq_getElem?_getD, List.getElem?_set_ne h]
+
+theorem getD_set_eq (ws : List W) (w : Nat) (v d : W) (h : w < ws.length) :
+    (ws.set w v).getD w d = v := by
+  simp [List.getD_eq_getElem?_getD, List.getElem?_set_self h]
+
+theorem getD_set_cases (ws : List W) (w j : Nat) (v : W) :
+    (ws.set w v).getD j .exited = ws.getD j .exited ∨ (j = w ∧ (ws.set w v).getD j .exited = v) := by
+  by_cases h : w = j
+  · subst h
+    by_cases hw : w < ws.length
+    · exact Or.inr ⟨rfl, getD_set_eq _ _ _ _ hw⟩
+    · left
+      have : ws.length ≤ w := Nat.le_of_not_lt hw
+      simp [List.getD_eq_getElem?_getD, List.getElem?_eq_none, this]
+  · exact Or.inl (getD_set_ne _ _ _ _ _ h)
+
+theorem mutexInv_init (n : Nat) (rx : Bool) (items : List Item) : MutexInv (init n rx items) := by
+  constructor
+  · intro w h; simp [init] at h
+  · intro w h
+    simp only [init, List.getD_eq_getElem?_getD] at h
+    by_cases hw : w < n
+    · simp [List.getElem?_replicate, hw, isMerging] at h
+    · simp [List.getElem?_replicate, hw, isMerging] at h
+
+/-- a slot that was not merging and is not merging afterwards, owner untouched -/
+theorem mutexInv_plain (s s' : State) (w : Nat) (new : W)
+    (hold : isMerging (s.workers.getD w .exited) = false) (hnew : isMerging new = false)
+    (hws : s'.workers = s.workers.set w new) (ho : s'.owner = s.owner) (h : MutexInv s) : MutexInv s' := by
+  obtain ⟨h1, h2⟩ := h
+  constructor
+  · intro v hv
+    rw [ho] at hv
+    have := h1 v hv
+    rw [hws]
+    rcases getD_set_cases s.workers w v new with e | ⟨rfl, _⟩
+    · rw [e]; exact this
+    · rw [hold] at this; cases this
+  · intro v hv
+    rw [hws] at hv
+    rw [ho]
+    rcases getD_set_cases s.workers w v new with e | ⟨rfl, e⟩
+    · rw [e] at hv; exact h2 v hv
+    · rw [e, hnew] at hv; cases hv
+
+/-- the owner leaves `add_results` (unlock, or death inside it) -/
+theorem mutexInv_release (s s' : State) (w : Nat) (new : W)
+    (hold : isMerging (s.workers.getD w .exited) = true) (hnew : isMerging new = false)
+    (hws : s'.workers = s.workers.set w new) (ho : s'.owner = none) (h : MutexInv s) : MutexInv s' := by
+  obtain ⟨h1, h2⟩ := h
+  have how := h2 w hold
+  constructor
+  · intro v hv; rw [ho] at hv; cases hv
+  · intro v hv
+    rw [hws] at hv
+    by_cases hvw : w = v
+    · subst hvw
+      have hw : w < s.workers.length := getD_ne_default_lt (by intro e; rw [e] at hold; cases hold)
+      rw [getD_set_eq _ _ _ _ hw, hnew] at hv; cases hv
+    · rw [getD_set_ne _ _ _ _ _ hvw] at hv
+      have := h2 v hv
+      rw [how] at this
+      exact absurd (by simpa using this) hvw
+
+theorem step_mutexInv (fate : Item → Fate) (size : Item → Nat) (s : State) (st : Step)
+    (he : enabled size s st = true) (h : MutexInv s) : MutexInv (step fate s st) := by
+  cases st with
+  | prodSend =>
+    simp only [step]
+    split
+    · exact h
+    · split <;> exact h
+  | prodExit => exact h
+  | prodDies => exact h
+  | main =>
+    simp only [step]
+    split
+    · split <;> exact h
+    · split
+      · exact h
+      · split <;> exact h
+    · split
+      · exact h
+      · split <;> exact h
+    · exact h
+  | recv w =>
+    simp only [enabled, Bool.and_eq_true, beq_iff_eq] at he
+    have hidle := he.1.2
+    simp only [step]
+    split
+    · exact h
+    · exact mutexInv_plain s _ w _ (by rw [hidle]; rfl) rfl rfl rfl h
+    · exact mutexInv_plain s _ w _ (by rw [hidle]; rfl) rfl rfl rfl h
+  | parsed w =>
+    simp only [step]
+    cases hh : s.workers.getD w .exited with
+    | holding y =>
+      simp only
+      cases fate y with
+      | ok => exact mutexInv_plain s _ w _ (by rw [hh]; rfl) rfl rfl rfl h
+      | reject => exact mutexInv_plain s _ w _ (by rw [hh]; rfl) rfl rfl rfl h
+      | die => exact mutexInv_plain s _ w _ (by rw [hh]; rfl) rfl rfl rfl h
+    | idle => exact h
+    | batch _ => exact h
+    | merging _ _ => exact h
+    | exited => exact h
+    | dead => exact h
+  | lock w =>
+    simp only [enabled, Bool.and_eq_true] at he
+    have hfree : s.owner = none := by simpa using he.1.2
+    simp only [step]
+    cases hh : s.workers.getD w .exited with
+    | batch y =>
+      simp only
+      split
+      · exact mutexInv_plain s _ w _ (by rw [hh]; rfl) rfl rfl rfl h
+      · -- the mutex was free: nobody was merging
+        obtain ⟨h1, h2⟩ := h
+        have hw : w < s.workers.length := getD_ne_default_lt (by rw [hh]; simp)
+        constructor
+        · intro v hv
+          have hvw : w = v := by simpa using hv
+          subst hvw
+          show isMerging ((s.workers.set w (.merging y 0)).getD w .exited) = true
+          rw [getD_set_eq _ _ _ _ hw]; rfl
+        · intro v hv
+          show some w = some v
+          rcases getD_set_cases s.workers w v (.merging y 0) with e | ⟨rfl, _⟩
+          · have hv' : isMerging (s.workers.getD v .exited) = true := by
+              have : isMerging ((s.workers.set w (.merging y 0)).getD v .exited) = true := hv
+              rw [e] at this; exact this
+            have := h2 v hv'
+            rw [hfree] at this; cases this
+          · rfl
+    | idle => exact h
+    | holding _ => exact h
+    | merging _ _ => exact h
+    | exited => exact h
+    | dead => exact h
+  | mergeEntry w =>
+    simp only [step]
+    cases hh : s.workers.getD w .exited with
+    | merging y j =>
+      obtain ⟨h1, h2⟩ := h
+      have hw : w < s.workers.length := getD_ne_default_lt (by rw [hh]; simp)
+      constructor
+      · intro v hv
+        have hv' : s.owner = some v := hv
+        have := h1 v hv'
+        show isMerging ((s.workers.set w (.merging y (j + 1))).getD v .exited) = true
+        rcases getD_set_cases s.workers w v (.merging y (j + 1)) with e | ⟨rfl, e⟩
+        · rw [e]; exact this
+        · rw [e]; rfl
+      · intro v hv
+        show s.owner = some v
+        have hv' : isMerging ((s.workers.set w (.merging y (j + 1))).getD v .exited) = true := hv
+        rcases getD_set_cases s.workers w v (.merging y (j + 1)) with e | ⟨rfl, e⟩
+        · rw [e] at hv'; exact h2 v hv'
+        · exact h2 v (by rw [hh]; rfl)
+    | idle => exact h
+    | holding _ => exact h
+    | batch _ => exact h
+    | exited => exact h
+    | dead => exact h
+  | unlock w =>
+    simp only [step]
+    cases hh : s.workers.getD w .exited with
+    | merging y j => exact mutexInv_release s _ w _ (by rw [hh]; rfl) rfl rfl rfl h
+    | idle => exact h
+    | holding _ => exact h
+    | batch _ => exact h
+    | exited => exact h
+    | dead => exact h
+  | workerDies w =>
+    simp only [step]
+    cases hh : s.workers.getD w .exited with
+    | merging y j => exact mutexInv_release s _ w _ (by rw [hh]; rfl) rfl rfl rfl h
+    | idle => exact mutexInv_plain s _ w _ (by rw [hh]; rfl) rfl rfl rfl h
+    | holding _ => exact mutexInv_plain s _ w _ (by rw [hh]; rfl) rfl rfl rfl h
+    | batch _ => exact mutexInv_plain s _ w _ (by rw [hh]; rfl) rfl rfl rfl h
+    | exited => exact h
+    | dead => exact h
+
 /-! ### progress -/
 
 theorem alive_witness {ws : List W} (h : ws.any W.alive = true) :
@@ -327,31 +615,60 @@ theorem alive_witness {ws : List W} (h : ws.any W.alive = true) :
   obtain ⟨i, hi, rfl⟩ := List.getElem_of_mem hx
   exact ⟨i, hi, by simpa [List.getD_eq_getElem?_getD, List.getElem?_eq_getElem hi] using ha⟩
 
-theorem recv_mem_allSteps (s : State) (w : Nat) (hw : w < s.n) : Step.recv w ∈ allSteps s := by
+theorem slot_mem_allSteps (s : State) (w : Nat) (hw : w < s.n) :
+    Step.recv w ∈ allSteps s ∧ Step.parsed w ∈ allSteps s ∧ Step.lock w ∈ allSteps s ∧
+      Step.mergeEntry w ∈ allSteps s ∧ Step.unlock w ∈ allSteps s := by
   simp only [allSteps, List.mem_append, List.mem_flatMap, List.mem_range]
-  exact Or.inr ⟨w, hw, by simp⟩
+  refine ⟨Or.inr ⟨w, hw, by simp⟩, Or.inr ⟨w, hw, by simp⟩, Or.inr ⟨w, hw, by simp⟩,
+    Or.inr ⟨w, hw, by simp⟩, Or.inr ⟨w, hw, by simp⟩⟩
 
-theorem finish_mem_allSteps (s : State) (w : Nat) (hw : w < s.n) : Step.finish w ∈ allSteps s := by
-  simp only [allSteps, List.mem_append, List.mem_flatMap, List.mem_range]
-  exact Or.inr ⟨w, hw, by simp⟩
+/-- a worker inside `add_results` can always go on -/
+theorem merging_can_move (size : Item → Nat) (s : State) (ht : terminal s = false)
+    (hlen : s.workers.length = s.n) (w : Nat) (y : Item) (j : Nat)
+    (hh : s.workers.getD w .exited = .merging y j) :
+    ∃ st ∈ allSteps s, enabled size s st = true := by
+  have hw : w < s.n := by rw [← hlen]; exact getD_ne_default_lt (by rw [hh]; simp)
+  have hh' : s.workers[w]?.getD W.exited = W.merging y j := by
+    rw [← List.getD_eq_getElem?_getD]; exact hh
+  by_cases hj : j < size y
+  · exact ⟨.mergeEntry w, (slot_mem_allSteps s w hw).2.2.2.1, by simp [enabled, ht, hh', hj]⟩
+  · exact ⟨.unlock w, (slot_mem_allSteps s w hw).2.2.2.2, by simp [enabled, ht, hh']; omega⟩
 
-/-- an alive worker can move unless it is idle on an empty queue -/
-theorem worker_can_move (s : State) (ht : terminal s = false) (hlen : s.workers.length = s.n)
-    (halive : anyAlive s = true) (hq : s.queue ≠ []) :
-    ∃ st ∈ allSteps s, enabled s st = true := by
+/-- an alive worker can move unless it is idle on an empty queue (a worker waiting for the mutex
+lets its holder move) -/
+theorem worker_can_move (size : Item → Nat) (s : State) (ht : terminal s = false)
+    (hlen : s.workers.length = s.n) (hmx : MutexInv s) (halive : anyAlive s = true) (hq : s.queue ≠ []) :
+    ∃ st ∈ allSteps s, enabled size s st = true := by
   obtain ⟨w, hw, ha⟩ := alive_witness halive
   rw [hlen] at hw
   cases hh : s.workers.getD w .exited with
   | idle =>
-    refine ⟨.recv w, recv_mem_allSteps s w hw, ?_⟩
+    refine ⟨.recv w, (slot_mem_allSteps s w hw).1, ?_⟩
     have hh' : s.workers[w]?.getD W.exited = W.idle := by
       rw [← List.getD_eq_getElem?_getD]; exact hh
     simp [enabled, ht, hh', hq]
   | holding y =>
-    refine ⟨.finish w, finish_mem_allSteps s w hw, ?_⟩
+    refine ⟨.parsed w, (slot_mem_allSteps s w hw).2.1, ?_⟩
     have hh' : s.workers[w]?.getD W.exited = W.holding y := by
       rw [← List.getD_eq_getElem?_getD]; exact hh
     simp [enabled, ht, hh']
+  | batch y =>
+    cases ho : s.owner with
+    | none =>
+      refine ⟨.lock w, (slot_mem_allSteps s w hw).2.2.1, ?_⟩
+      have hh' : s.workers[w]?.getD W.exited = W.batch y := by
+        rw [← List.getD_eq_getElem?_getD]; exact hh
+      simp [enabled, ht, hh', ho]
+    | some o =>
+      have := hmx.1 o ho
+      cases ho' : s.workers.getD o .exited with
+      | merging z j => exact merging_can_move size s ht hlen o z j ho'
+      | idle => rw [ho'] at this; cases this
+      | holding _ => rw [ho'] at this; cases this
+      | batch _ => rw [ho'] at this; cases this
+      | exited => rw [ho'] at this; cases this
+      | dead => rw [ho'] at this; cases this
+  | merging y j => exact merging_can_move size s ht hlen w y j hh
   | exited => rw [hh] at ha; simp [W.alive] at ha
   | dead => rw [hh] at ha; simp [W.alive] at ha
 
@@ -359,15 +676,22 @@ theorem mem_allSteps_main (s : State) : Step.main ∈ allSteps s := by simp [all
 theorem mem_allSteps_prodSend (s : State) : Step.prodSend ∈ allSteps s := by simp [allSteps]
 theorem mem_allSteps_prodExit (s : State) : Step.prodExit ∈ allSteps s := by simp [allSteps]
 
+theorem n_pos_of_alive (s : State) (hlen : s.workers.length = s.n) (ha : anyAlive s = true) : 1 ≤ s.n := by
+  obtain ⟨w, hw, _⟩ := alive_witness ha
+  omega
+
 /-- With `main`'s receiver dropped (the repaired code) no reachable non-terminal state is stuck,
-whatever the faults. -/
-theorem progress (s : State) (hinv : StopInv s) (hrx : s.rxMain = false) (hn : 1 ≤ s.n)
-    (ht : terminal s = false) : ∃ st ∈ allSteps s, enabled s st = true := by
+whatever the faults: some NON-FAULT step is enabled. Holds for every worker count, 0 included. -/
+theorem progress (size : Item → Nat) (s : State) (hinv : StopInv s) (hmx : MutexInv s)
+    (hrx : s.rxMain = false) (ht : terminal s = false) :
+    ∃ st ∈ allSteps s, enabled size s st = true := by
   obtain ⟨hlen, hm⟩ := hinv
   have hra : receiversAlive s = anyAlive s := by simp [receiversAlive, anyAlive, hrx]
-  -- a full queue is non-empty
-  have full_ne : ¬ s.queue.length < cap s → s.queue ≠ [] := by
-    intro hfull he; rw [he] at hfull; simp [cap] at hfull; omega
+  -- a full queue is non-empty (when somebody is alive there is at least one worker)
+  have full_ne : anyAlive s = true → ¬ s.queue.length < cap s → s.queue ≠ [] := by
+    intro ha hfull he
+    have := n_pos_of_alive s hlen ha
+    rw [he] at hfull; simp [cap] at hfull; omega
   cases hpc : s.mainPc with
   | done c => simp [terminal, hpc] at ht
   | joinProd =>
@@ -385,7 +709,7 @@ theorem progress (s : State) (hinv : StopInv s) (hrx : s.rxMain = false) (hn : 1
         by_cases hroom : s.queue.length < cap s
         · exact ⟨.prodSend, mem_allSteps_prodSend s, by simp [enabled, ht, hpd, hpx, htodo, hroom]⟩
         · by_cases ha : anyAlive s = true
-          · exact worker_can_move s ht hlen ha (full_ne hroom)
+          · exact worker_can_move size s ht hlen hmx ha (full_ne ha hroom)
           · exact ⟨.prodSend, mem_allSteps_prodSend s,
               by simp [enabled, ht, hpd, hpx, htodo, hra, ha]⟩
   | stops k =>
@@ -394,7 +718,7 @@ theorem progress (s : State) (hinv : StopInv s) (hrx : s.rxMain = false) (hn : 1
     · by_cases hroom : s.queue.length < cap s
       · exact ⟨.main, mem_allSteps_main s, by simp [enabled, hpc, hroom]⟩
       · by_cases ha : anyAlive s = true
-        · exact worker_can_move s ht hlen ha (full_ne hroom)
+        · exact worker_can_move size s ht hlen hmx ha (full_ne ha hroom)
         · exact ⟨.main, mem_allSteps_main s, by simp [enabled, hpc, hra, ha]⟩
   | joinWorkers i =>
     by_cases hi : i ≥ s.n
@@ -403,11 +727,12 @@ theorem progress (s : State) (hinv : StopInv s) (hrx : s.rxMain = false) (hn : 1
       · -- worker i is alive: it can move unless idle on an empty queue, which the bookkeeping excludes
         have ha : anyAlive s = true := any_alive_of_getD hw
         by_cases hq : s.queue = []
-        · exfalso
+        · -- an alive worker on an empty queue: not idle for ever – the bookkeeping says all
+          -- markers were consumed, i.e. every worker exited; so worker i is busy and can move
           rw [hpc] at hm
           rcases hm with hm | hm
           · rw [hm] at ha; cases ha
-          · -- all markers consumed ⇒ every worker exited, but worker i is alive
+          · exfalso
             rw [hq] at hm
             simp only [nNones, List.count_nil, Nat.zero_add, nExited] at hm
             have hall : ∀ x ∈ s.workers, x = W.exited := by
@@ -418,15 +743,23 @@ theorem progress (s : State) (hinv : StopInv s) (hrx : s.rxMain = false) (hn : 1
               simp only [List.getD_eq_getElem?_getD, List.getElem?_eq_getElem hil, Option.getD_some]
               exact hall _ (List.getElem_mem hil)
             rw [this] at hw; simp [W.alive] at hw
-        · exact worker_can_move s ht hlen ha hq
+        · exact worker_can_move size s ht hlen hmx ha hq
       · have hw' : (s.workers[i]?.getD W.exited).alive = false := by
           rw [← List.getD_eq_getElem?_getD]; simpa using hw
         exact ⟨.main, mem_allSteps_main s, by simp [enabled, hpc, hw']⟩
 
 /-! ### every run is finite: a measure that every enabled step decreases -/
 
-def wWeight : W → Nat
-  | .idle => 2 | .holding _ => 3 | _ => 0
+def wWeight (size : Item → Nat) : W → Nat
+  | .idle => 2
+  | .holding x => size x + 6
+  | .batch x => size x + 5
+  | .merging x j => (size x - j) + 4
+  | _ => 0
+
+def qWeight (size : Item → Nat) : Option Item → Nat
+  | some x => size x + 7
+  | none => 2
 
 def mainWeight (n : Nat) : MainPc → Nat
   | .joinProd => 4 * n + 3
@@ -434,13 +767,14 @@ def mainWeight (n : Nat) : MainPc → Nat
   | .joinWorkers i => (n - i) + 1
   | .done _ => 0
 
-def mu (s : State) : Nat :=
-  3 * s.todo.length + (if s.prodDone || s.prodDead then 0 else 1) + 2 * s.queue.length
-    + (s.workers.map wWeight).sum + mainWeight s.n s.mainPc
+def mu (size : Item → Nat) (s : State) : Nat :=
+  (s.todo.map fun x => size x + 8).sum + (if s.prodDone || s.prodDead then 0 else 1)
+    + (s.queue.map (qWeight size)).sum
+    + (s.workers.map (wWeight size)).sum + mainWeight s.n s.mainPc
 
-theorem sum_set_weight (ws : List W) (w : Nat) (new : W) (hw : w < ws.length) :
-    ((ws.set w new).map wWeight).sum + wWeight (ws.getD w .exited)
-      = (ws.map wWeight).sum + wWeight new := by
+theorem sum_set_weight (size : Item → Nat) (ws : List W) (w : Nat) (new : W) (hw : w < ws.length) :
+    ((ws.set w new).map (wWeight size)).sum + wWeight size (ws.getD w .exited)
+      = (ws.map (wWeight size)).sum + wWeight size new := by
   induction ws generalizing w with
   | nil => simp at hw
   | cons a ws ih =>
@@ -451,8 +785,21 @@ theorem sum_set_weight (ws : List W) (w : Nat) (new : W) (hw : w < ws.length) :
       simp only [List.set_cons_succ, List.map_cons, List.sum_cons, List.getD_cons_succ] at this ⊢
       omega
 
-theorem step_mu (fate : Item → Fate) (s : State) (st : Step) (he : enabled s st = true) :
-    mu (step fate s st) < mu s := by
+/-- a step that only rewrites slot `w` to something lighter decreases the measure -/
+theorem mu_slot (size : Item → Nat) (s s' : State) (w : Nat) (old new : W)
+    (hh : s.workers.getD w .exited = old) (hne : old ≠ .exited)
+    (hlt : wWeight size new < wWeight size old)
+    (hws : s'.workers = s.workers.set w new) (hq : s'.queue = s.queue) (hpc : s'.mainPc = s.mainPc)
+    (hn : s'.n = s.n) (htodo : s'.todo = s.todo) (hpd : s'.prodDone = s.prodDone)
+    (hpx : s'.prodDead = s.prodDead) : mu size s' < mu size s := by
+  have hw : w < s.workers.length := getD_ne_default_lt (by rw [hh]; exact hne)
+  have := sum_set_weight size s.workers w new hw
+  rw [hh] at this
+  simp only [mu, hws, hq, hpc, hn, htodo, hpd, hpx]
+  omega
+
+theorem step_mu (fate : Item → Fate) (size : Item → Nat) (s : State) (st : Step)
+    (he : enabled size s st = true) : mu size (step fate s st) < mu size s := by
   cases st with
   | prodSend =>
     simp only [enabled, Bool.and_eq_true, Bool.not_eq_true'] at he
@@ -463,11 +810,15 @@ theorem step_mu (fate : Item → Fate) (s : State) (st : Step) (he : enabled s s
     | cons y rest =>
       simp only
       split
-      · simp [mu, htodo]; omega
+      · simp [mu, htodo, qWeight]; omega
       · simp [mu, htodo, hpd, hpx]
   | prodExit =>
     simp only [enabled, Bool.and_eq_true, Bool.not_eq_true'] at he
     obtain ⟨⟨⟨_, hpd⟩, hpx⟩, _⟩ := he
+    simp [step, mu, hpd, hpx]
+  | prodDies =>
+    simp only [enabled, Bool.and_eq_true, Bool.not_eq_true'] at he
+    obtain ⟨⟨_, hpd⟩, hpx⟩ := he
     simp [step, mu, hpd, hpx]
   | recv w =>
     simp only [enabled, Bool.and_eq_true, beq_iff_eq] at he
@@ -479,32 +830,74 @@ theorem step_mu (fate : Item → Fate) (s : State) (st : Step) (he : enabled s s
     | cons e q =>
       cases e with
       | some y =>
-        have := sum_set_weight s.workers w (.holding y) hw
+        have := sum_set_weight size s.workers w (.holding y) hw
         rw [hidle] at this
-        simp [mu, hq, wWeight] at this ⊢; omega
+        simp [mu, hq, wWeight, qWeight] at this ⊢; omega
       | none =>
-        have := sum_set_weight s.workers w .exited hw
+        have := sum_set_weight size s.workers w .exited hw
         rw [hidle] at this
-        simp [mu, hq, wWeight] at this ⊢; omega
-  | finish w =>
+        simp [mu, hq, wWeight, qWeight] at this ⊢; omega
+  | parsed w =>
     simp only [step]
     cases hh : s.workers.getD w .exited with
     | holding y =>
-      have hw : w < s.workers.length := getD_ne_default_lt (by rw [hh]; intro h; cases h)
       simp only
       cases fate y with
-      | ok =>
-        have := sum_set_weight s.workers w .idle hw
-        rw [hh] at this; simp [mu, wWeight] at this ⊢; omega
-      | reject =>
-        have := sum_set_weight s.workers w .idle hw
-        rw [hh] at this; simp [mu, wWeight] at this ⊢; omega
-      | die =>
-        have := sum_set_weight s.workers w .dead hw
-        rw [hh] at this; simp [mu, wWeight] at this ⊢; omega
+      | ok => exact mu_slot size s _ w _ _ hh (by simp) (by simp [wWeight]) rfl rfl rfl rfl rfl rfl rfl
+      | reject => exact mu_slot size s _ w _ _ hh (by simp) (by simp [wWeight] <;> omega) rfl rfl rfl rfl rfl rfl rfl
+      | die => exact mu_slot size s _ w _ _ hh (by simp) (by simp [wWeight]) rfl rfl rfl rfl rfl rfl rfl
     | idle => simp only [enabled, hh] at he; simp at he
+    | batch _ => simp only [enabled, hh] at he; simp at he
+    | merging _ _ => simp only [enabled, hh] at he; simp at he
     | exited => simp only [enabled, hh] at he; simp at he
     | dead => simp only [enabled, hh] at he; simp at he
+  | lock w =>
+    simp only [step]
+    cases hh : s.workers.getD w .exited with
+    | batch y =>
+      simp only
+      split
+      · exact mu_slot size s _ w _ _ hh (by simp) (by simp [wWeight]) rfl rfl rfl rfl rfl rfl rfl
+      · exact mu_slot size s _ w _ _ hh (by simp) (by simp [wWeight]) rfl rfl rfl rfl rfl rfl rfl
+    | idle => simp only [enabled, hh] at he; simp at he
+    | holding _ => simp only [enabled, hh] at he; simp at he
+    | merging _ _ => simp only [enabled, hh] at he; simp at he
+    | exited => simp only [enabled, hh] at he; simp at he
+    | dead => simp only [enabled, hh] at he; simp at he
+  | mergeEntry w =>
+    simp only [step]
+    cases hh : s.workers.getD w .exited with
+    | merging y j =>
+      have hj : j < size y := by
+        have hh' : s.workers[w]?.getD W.exited = W.merging y j := by
+          rw [← List.getD_eq_getElem?_getD]; exact hh
+        have := he
+        simp [enabled, hh'] at this
+        exact this.2
+      exact mu_slot size s _ w _ _ hh (by simp) (by simp [wWeight] <;> omega) rfl rfl rfl rfl rfl rfl rfl
+    | idle => simp only [enabled, hh] at he; simp at he
+    | holding _ => simp only [enabled, hh] at he; simp at he
+    | batch _ => simp only [enabled, hh] at he; simp at he
+    | exited => simp only [enabled, hh] at he; simp at he
+    | dead => simp only [enabled, hh] at he; simp at he
+  | unlock w =>
+    simp only [step]
+    cases hh : s.workers.getD w .exited with
+    | merging y j => exact mu_slot size s _ w _ _ hh (by simp) (by simp [wWeight] <;> omega) rfl rfl rfl rfl rfl rfl rfl
+    | idle => simp only [enabled, hh] at he; simp at he
+    | holding _ => simp only [enabled, hh] at he; simp at he
+    | batch _ => simp only [enabled, hh] at he; simp at he
+    | exited => simp only [enabled, hh] at he; simp at he
+    | dead => simp only [enabled, hh] at he; simp at he
+  | workerDies w =>
+    simp only [step]
+    cases hh : s.workers.getD w .exited with
+    | idle => exact mu_slot size s _ w _ _ hh (by simp) (by simp [wWeight]) rfl rfl rfl rfl rfl rfl rfl
+    | holding y => exact mu_slot size s _ w _ _ hh (by simp) (by simp [wWeight]) rfl rfl rfl rfl rfl rfl rfl
+    | batch y => exact mu_slot size s _ w _ _ hh (by simp) (by simp [wWeight]) rfl rfl rfl rfl rfl rfl rfl
+    | merging y j => exact mu_slot size s _ w _ _ hh (by simp) (by simp [wWeight]) rfl rfl rfl rfl rfl rfl rfl
+    | exited => simp only [enabled, hh] at he; simp [W.alive] at he
+    | dead => simp only [enabled, hh] at he; simp [W.alive] at he
   | main =>
     simp only [step]
     cases hpc : s.mainPc with
@@ -516,7 +909,7 @@ theorem step_mu (fate : Item → Fate) (s : State) (st : Step) (he : enabled s s
       split
       · simp [mu, hpc, mainWeight]; omega
       · split
-        · simp [mu, hpc, mainWeight]; omega
+        · simp [mu, hpc, mainWeight, qWeight]; omega
         · simp [mu, hpc, mainWeight]; omega
     | joinWorkers i =>
       simp only
@@ -525,27 +918,33 @@ theorem step_mu (fate : Item → Fate) (s : State) (st : Step) (he : enabled s s
       · split <;> simp [mu, hpc, mainWeight] <;> omega
     | done c => simp [enabled, hpc] at he
 
-theorem run_length_le_mu {fate : Item → Fate} {s s' : State} {tr : List Step}
-    (h : Run fate s tr s') : tr.length + mu s' ≤ mu s := by
+theorem run_length_le_mu {fate : Item → Fate} {size : Item → Nat} {s s' : State} {tr : List Step}
+    (h : Run fate size s tr s') : tr.length + mu size s' ≤ mu size s := by
   induction h with
   | nil => simp
   | cons he _ ih =>
-    have := step_mu fate _ _ he
+    have := step_mu fate size _ _ he
     simp only [List.length_cons]; omega
 
-theorem run_stopInv {fate : Item → Fate} {s s' : State} {tr : List Step} (h : Run fate s tr s')
-    (hi : StopInv s) : StopInv s' := by
+theorem run_stopInv {fate : Item → Fate} {size : Item → Nat} {s s' : State} {tr : List Step}
+    (h : Run fate size s tr s') (hi : StopInv s) : StopInv s' := by
   induction h with
   | nil => exact hi
-  | cons he _ ih => exact ih (step_stopInv _ _ _ he hi)
+  | cons he _ ih => exact ih (step_stopInv _ _ _ _ he hi)
+
+theorem run_mutexInv {fate : Item → Fate} {size : Item → Nat} {s s' : State} {tr : List Step}
+    (h : Run fate size s tr s') (hi : MutexInv s) : MutexInv s' := by
+  induction h with
+  | nil => exact hi
+  | cons he _ ih => exact ih (step_mutexInv _ _ _ _ he hi)
 
 theorem step_n (fate : Item → Fate) (s : State) (st : Step) :
     (step fate s st).n = s.n ∧ (step fate s st).rxMain = s.rxMain := by
   cases st <;> simp only [step] <;> repeat' split
   all_goals first | exact ⟨rfl, rfl⟩ | simp
 
-theorem run_n {fate : Item → Fate} {s s' : State} {tr : List Step} (h : Run fate s tr s') :
-    s'.n = s.n ∧ s'.rxMain = s.rxMain := by
+theorem run_n {fate : Item → Fate} {size : Item → Nat} {s s' : State} {tr : List Step}
+    (h : Run fate size s tr s') : s'.n = s.n ∧ s'.rxMain = s.rxMain := by
   induction h with
   | nil => exact ⟨rfl, rfl⟩
   | cons _ _ ih =>
@@ -599,14 +998,6 @@ theorem qShape_tail (e : Option Item) (q : List (Option Item)) (h : qShape (e ::
   | some x => simpa [qShape] using h
   | none => exact qShape_of_all_none q (by simpa [qShape] using h)
 
-theorem getD_set_ne (ws : List W) (w j : Nat) (v d : W) (h : w ≠ j) :
-    (ws.set w v).getD j d = ws.getD j d := by
-  simp [List.getD_eq_getElem?_getD, List.getElem?_set_ne h]
-
-theorem getD_set_eq (ws : List W) (w : Nat) (v d : W) (h : w < ws.length) :
-    (ws.set w v).getD w d = v := by
-  simp [List.getD_eq_getElem?_getD, List.getElem?_set_self h]
-
 structure FlowInv (fate : Item → Fate) (s : State) : Prop where
   stop : StopInv s
   shape : qShape s.queue = true
@@ -620,13 +1011,19 @@ structure FlowInv (fate : Item → Fate) (s : State) : Prop where
   lostDead : s.lost ≠ [] → ∃ j, s.workers.getD j .idle = .dead
   mergedOk : ∀ x ∈ s.merged, fate x = .ok
   rejectedRej : ∀ x ∈ s.rejected, fate x = .reject
+  mutex : MutexInv s
+  batchOk : ∀ w x, s.workers.getD w .exited = .batch x → fate x = .ok
+  poisonDead : s.poisoned = true → ∃ j, s.workers.getD j .idle = .dead
 
 theorem flowInv_init (fate : Item → Fate) (n : Nat) (rx : Bool) (items : List Item) :
     FlowInv fate (init n rx items) := by
-  refine ⟨stopInv_init n rx items, rfl, by simp [init], Or.inl rfl, ?_, ?_, by simp [init], by simp [init], by simp [init]⟩
+  refine ⟨stopInv_init n rx items, rfl, by simp [init], Or.inl rfl, ?_, ?_, by simp [init], by simp [init],
+    by simp [init], mutexInv_init n rx items, ?_, by simp [init]⟩
   · intro h; simp [init, nExited, List.count_replicate] at h
   · intro j hj; simp [init] at hj
-
+  · intro w x h
+    simp only [init, List.getD_eq_getElem?_getD] at h
+    by_cases hw : w < n <;> simp [hw] at h
 
 theorem nNones_zero_all_some (q : List (Option Item)) (h : nNones q = 0) (e) (he : e ∈ q) : e ≠ none := by
   intro hn; subst hn
@@ -647,9 +1044,72 @@ theorem producing_phase (fate : Item → Fate) (s : State) (h : FlowInv fate s)
   simp only at this
   omega
 
-theorem step_flowInv (fate : Item → Fate) (s : State) (st : Step) (he : enabled s st = true)
-    (h : FlowInv fate s) : FlowInv fate (step fate s st) := by
-  have hstop' := step_stopInv fate s st he h.stop
+/-- a worker that is `exited` or `dead` is not the alive worker whose slot is rewritten -/
+theorem keep_slot (ws : List W) (w j : Nat) (new u : W) (hold : (ws.getD w .exited).alive = true)
+    (hu : u.alive = false) (hui : u ≠ .idle) (hj : ws.getD j .idle = u) :
+    (ws.set w new).getD j .idle = u := by
+  by_cases hwj : w = j
+  · subst hwj
+    exfalso
+    have hw : w < ws.length := getD_ne_default_lt (alive_ne_exited hold)
+    rw [List.getD_eq_getElem?_getD, List.getElem?_eq_getElem hw] at hj hold
+    simp only [Option.getD_some] at hj hold
+    rw [hj, hu] at hold; cases hold
+  · rw [List.getD_eq_getElem?_getD, List.getElem?_set_ne hwj, ← List.getD_eq_getElem?_getD]; exact hj
+
+/-- the worker-local steps preserve the flow invariant, given what they do to the result lists -/
+theorem flowInv_slot (fate : Item → Fate) (s s' : State) (w : Nat) (new : W)
+    (hold : (s.workers.getD w .exited).alive = true) (hnew : new ≠ .exited)
+    (hws : s'.workers = s.workers.set w new) (hq : s'.queue = s.queue) (hpc : s'.mainPc = s.mainPc)
+    (hn : s'.n = s.n) (htodo : s'.todo = s.todo) (hpd : s'.prodDone = s.prodDone)
+    (hmx : MutexInv s')
+    (hm : ∀ x ∈ s'.merged, fate x = .ok) (hr : ∀ x ∈ s'.rejected, fate x = .reject)
+    (hl : s'.lost ≠ [] → s.lost ≠ [] ∨ new = .dead)
+    (hb : ∀ x, new = .batch x → fate x = .ok)
+    (hpz : s'.poisoned = true → s.poisoned = true ∨ new = .dead)
+    (h : FlowInv fate s) : FlowInv fate s' := by
+  have hw : w < s.workers.length := getD_ne_default_lt (alive_ne_exited hold)
+  have hc := count_set_W s.workers w new .exited hw
+  have hne : ¬ s.workers.getD w .exited = .exited := alive_ne_exited hold
+  simp only [hne, if_false, hnew, Nat.add_zero] at hc
+  refine ⟨stopInv_slot s s' w new hnew hold hws hq hpc hn h.stop, by rw [hq]; exact h.shape,
+    by rw [hpd, htodo]; exact h.doneTodo, by rw [hpc, hpd]; exact h.past, ?_, ?_, ?_, hm, hr, hmx, ?_, ?_⟩
+  · intro hex
+    rw [hws] at hex
+    simp only [nExited, hc] at hex
+    rw [hq]; exact h.exitedNoSome hex
+  · intro j hj
+    rw [hpc, hn] at hj
+    rw [hws]
+    exact keep_slot _ _ _ _ _ hold rfl (by simp) (h.joined j hj)
+  · intro hl'
+    rcases hl hl' with hl0 | hd
+    · obtain ⟨j, hj⟩ := h.lostDead hl0
+      exact ⟨j, by rw [hws]; exact keep_slot _ _ _ _ _ hold rfl (by simp) hj⟩
+    · subst hd
+      refine ⟨w, ?_⟩
+      rw [hws, List.getD_eq_getElem?_getD, List.getElem?_set_self hw]; rfl
+  · intro v x hv
+    rw [hws] at hv
+    rcases getD_set_cases s.workers w v new with e | ⟨rfl, e⟩
+    · rw [e] at hv; exact h.batchOk v x hv
+    · rw [e] at hv; exact hb x hv
+  · intro hp'
+    rcases hpz hp' with hp0 | hd
+    · obtain ⟨j, hj⟩ := h.poisonDead hp0
+      exact ⟨j, by rw [hws]; exact keep_slot _ _ _ _ _ hold rfl (by simp) hj⟩
+    · subst hd
+      refine ⟨w, ?_⟩
+      rw [hws, List.getD_eq_getElem?_getD, List.getElem?_set_self hw]; rfl
+
+theorem mem_append_singleton {x y : Item} {l : List Item} (h : x ∈ l ++ [y]) : x ∈ l ∨ x = y := by
+  simpa using h
+
+theorem step_flowInv (fate : Item → Fate) (size : Item → Nat) (s : State) (st : Step)
+    (he : enabled size s st = true) (h : FlowInv fate s) : FlowInv fate (step fate s st) := by
+  have hstop' := step_stopInv fate size s st he h.stop
+  have hmx' := step_mutexInv fate size s st he h.mutex
+  -- steps that leave the workers alone keep `batchOk`
   cases st with
   | prodSend =>
     simp only [enabled, Bool.and_eq_true, Bool.not_eq_true'] at he
@@ -663,22 +1123,30 @@ theorem step_flowInv (fate : Item → Fate) (s : State) (st : Step) (he : enable
       by_cases hr : receiversAlive s = true
       · have e : step fate s .prodSend = { s with todo := rest, queue := s.queue ++ [some x] } := by
           simp [step, htodo, hr]
-        rw [e] at hstop' ⊢
-        refine ⟨hstop', qShape_append_some _ _ hn0, ?_, h.past, ?_, h.joined, h.lostDead, h.mergedOk, h.rejectedRej⟩
+        rw [e] at hstop' hmx' ⊢
+        refine ⟨hstop', qShape_append_some _ _ hn0, ?_, h.past, ?_, h.joined, h.lostDead, h.mergedOk,
+          h.rejectedRej, hmx', h.batchOk, h.poisonDead⟩
         · intro hd; simp only at hd; rw [hpd] at hd; cases hd
         · intro hex; simp only at hex; omega
       · have e : step fate s .prodSend = { s with prodDead := true } := by
           simp [step, htodo, hr]
-        rw [e] at hstop' ⊢
-        exact ⟨hstop', h.shape, h.doneTodo, h.past, h.exitedNoSome, h.joined, h.lostDead, h.mergedOk, h.rejectedRej⟩
+        rw [e] at hstop' hmx' ⊢
+        exact ⟨hstop', h.shape, h.doneTodo, h.past, h.exitedNoSome, h.joined, h.lostDead, h.mergedOk,
+          h.rejectedRej, hmx', h.batchOk, h.poisonDead⟩
   | prodExit =>
     simp only [enabled, Bool.and_eq_true, Bool.not_eq_true'] at he
     obtain ⟨⟨⟨_, _⟩, _⟩, hempty⟩ := he
     have e : step fate s .prodExit = { s with prodDone := true } := rfl
-    rw [e] at hstop' ⊢
-    refine ⟨hstop', h.shape, ?_, ?_, h.exitedNoSome, h.joined, h.lostDead, h.mergedOk, h.rejectedRej⟩
+    rw [e] at hstop' hmx' ⊢
+    refine ⟨hstop', h.shape, ?_, ?_, h.exitedNoSome, h.joined, h.lostDead, h.mergedOk, h.rejectedRej,
+      hmx', h.batchOk, h.poisonDead⟩
     · intro _; simpa using hempty
     · exact Or.inr (Or.inl rfl)
+  | prodDies =>
+    have e : step fate s .prodDies = { s with prodDead := true } := rfl
+    rw [e] at hstop' hmx' ⊢
+    exact ⟨hstop', h.shape, h.doneTodo, h.past, h.exitedNoSome, h.joined, h.lostDead, h.mergedOk,
+      h.rejectedRej, hmx', h.batchOk, h.poisonDead⟩
   | recv w =>
     simp only [enabled, Bool.and_eq_true, beq_iff_eq] at he
     have hidle := he.1.2
@@ -691,6 +1159,12 @@ theorem step_flowInv (fate : Item → Fate) (s : State) (st : Step) (he : enable
       by_cases hwj : w = j
       · subst hwj; rw [hidle'] at hj; exact absurd hj.symm hu
       · rw [getD_set_ne _ _ _ _ _ hwj]; exact hj
+    have bok : ∀ (v : W), (∀ x, v ≠ .batch x) → ∀ u x, (s.workers.set w v).getD u .exited = .batch x →
+        fate x = .ok := by
+      intro v hv u x hu
+      rcases getD_set_cases s.workers w u v with e | ⟨rfl, e⟩
+      · rw [e] at hu; exact h.batchOk u x hu
+      · rw [e] at hu; exact absurd hu (hv x)
     cases hq : s.queue with
     | nil => simp [hq] at he
     | cons e q =>
@@ -698,11 +1172,13 @@ theorem step_flowInv (fate : Item → Fate) (s : State) (st : Step) (he : enable
       | some y =>
         have e1 : step fate s (.recv w) = { s with queue := q, workers := s.workers.set w (.holding y) } := by
           simp [step, hq]
-        rw [e1] at hstop' ⊢
+        rw [e1] at hstop' hmx' ⊢
         have hc := count_set_W s.workers w (.holding y) .exited hw
         rw [hidle] at hc
         simp only [reduceCtorEq, if_false, Nat.add_zero] at hc
-        refine ⟨hstop', qShape_tail _ _ (hq ▸ h.shape), h.doneTodo, h.past, ?_, ?_, ?_, h.mergedOk, h.rejectedRej⟩
+        refine ⟨hstop', qShape_tail _ _ (hq ▸ h.shape), h.doneTodo, h.past, ?_, ?_, ?_, h.mergedOk,
+          h.rejectedRej, hmx', bok _ (by simp),
+          fun hp => by obtain ⟨j, hj⟩ := h.poisonDead hp; exact ⟨j, keep _ j .dead (by decide) hj⟩⟩
         · intro hex
           simp only [nExited, hc] at hex
           have := h.exitedNoSome hex
@@ -712,8 +1188,10 @@ theorem step_flowInv (fate : Item → Fate) (s : State) (st : Step) (he : enable
       | none =>
         have e1 : step fate s (.recv w) = { s with queue := q, workers := s.workers.set w .exited } := by
           simp [step, hq]
-        rw [e1] at hstop' ⊢
-        refine ⟨hstop', qShape_tail _ _ (hq ▸ h.shape), h.doneTodo, h.past, ?_, ?_, ?_, h.mergedOk, h.rejectedRej⟩
+        rw [e1] at hstop' hmx' ⊢
+        refine ⟨hstop', qShape_tail _ _ (hq ▸ h.shape), h.doneTodo, h.past, ?_, ?_, ?_, h.mergedOk,
+          h.rejectedRej, hmx', bok _ (by simp),
+          fun hp => by obtain ⟨j, hj⟩ := h.poisonDead hp; exact ⟨j, keep _ j .dead (by decide) hj⟩⟩
         · intro _
           have := h.shape; rw [hq] at this; simpa [qShape] using this
         · intro j hj
@@ -721,75 +1199,156 @@ theorem step_flowInv (fate : Item → Fate) (s : State) (st : Step) (he : enable
           · subst hwj; exact getD_set_eq _ _ _ _ hw
           · rw [getD_set_ne _ _ _ _ _ hwj]; exact h.joined j hj
         · intro hl; obtain ⟨j, hj⟩ := h.lostDead hl; exact ⟨j, keep _ j .dead (by decide) hj⟩
-  | finish w =>
+  | parsed w =>
     cases hh : s.workers.getD w .exited with
     | holding y =>
-      have hw : w < s.workers.length := getD_ne_default_lt (by rw [hh]; intro e; cases e)
-      have hh' : s.workers.getD w .idle = .holding y := by
-        simpa [List.getD_eq_getElem?_getD, List.getElem?_eq_getElem hw] using hh
       have hh2 : s.workers[w]?.getD W.exited = W.holding y := by
         rw [← List.getD_eq_getElem?_getD]; exact hh
-      have keep : ∀ (v : W) (j : Nat) (u : W), (∀ z, u ≠ .holding z) → s.workers.getD j .idle = u →
-          (s.workers.set w v).getD j .idle = u := by
-        intro v j u hu hj
-        by_cases hwj : w = j
-        · subst hwj; rw [hh'] at hj; exact absurd hj.symm (hu y)
-        · rw [getD_set_ne _ _ _ _ _ hwj]; exact hj
-      have cnt : ∀ v : W, v ≠ .exited → nExited (s.workers.set w v) = nExited s.workers := by
-        intro v hv
-        have hc := count_set_W s.workers w v .exited hw
-        rw [hh] at hc
-        simp only [reduceCtorEq, if_false, hv, Nat.add_zero] at hc
-        exact hc
+      have hold : (s.workers.getD w .exited).alive = true := by rw [hh]; rfl
       cases hf : fate y with
       | ok =>
-        have e1 : step fate s (.finish w) = { s with workers := s.workers.set w .idle, merged := s.merged ++ [y] } := by
+        have e1 : step fate s (.parsed w) = { s with workers := s.workers.set w (.batch y) } := by
           simp [step, hh2, hf]
-        rw [e1] at hstop' ⊢
-        refine ⟨hstop', h.shape, h.doneTodo, h.past, ?_, ?_, ?_, ?_, h.rejectedRej⟩
-        · intro hex; simp only [cnt .idle (by decide)] at hex; exact h.exitedNoSome hex
-        · intro j hj; exact keep _ j .exited (fun z => by intro e; cases e) (h.joined j hj)
-        · intro hl; obtain ⟨j, hj⟩ := h.lostDead hl; exact ⟨j, keep _ j .dead (fun z => by intro e; cases e) hj⟩
-        · intro x hx; simp only [List.mem_append, List.mem_singleton] at hx
-          rcases hx with hx | hx
-          · exact h.mergedOk x hx
-          · subst hx; exact hf
+        rw [e1] at hmx' ⊢
+        exact flowInv_slot fate s _ w _ hold (by simp) rfl rfl rfl rfl rfl rfl hmx' h.mergedOk h.rejectedRej
+          (fun hl => Or.inl hl) (fun x hx => by cases hx; exact hf) (fun hp => Or.inl hp) h
       | reject =>
-        have e1 : step fate s (.finish w) = { s with workers := s.workers.set w .idle, rejected := s.rejected ++ [y] } := by
+        have e1 : step fate s (.parsed w) = { s with workers := s.workers.set w .idle, rejected := s.rejected ++ [y] } := by
           simp [step, hh2, hf]
-        rw [e1] at hstop' ⊢
-        refine ⟨hstop', h.shape, h.doneTodo, h.past, ?_, ?_, ?_, h.mergedOk, ?_⟩
-        · intro hex; simp only [cnt .idle (by decide)] at hex; exact h.exitedNoSome hex
-        · intro j hj; exact keep _ j .exited (fun z => by intro e; cases e) (h.joined j hj)
-        · intro hl; obtain ⟨j, hj⟩ := h.lostDead hl; exact ⟨j, keep _ j .dead (fun z => by intro e; cases e) hj⟩
-        · intro x hx; simp only [List.mem_append, List.mem_singleton] at hx
-          rcases hx with hx | hx
-          · exact h.rejectedRej x hx
-          · subst hx; exact hf
+        rw [e1] at hmx' ⊢
+        refine flowInv_slot fate s _ w _ hold (by simp) rfl rfl rfl rfl rfl rfl hmx' h.mergedOk ?_
+          (fun hl => Or.inl hl) (fun x hx => by cases hx) (fun hp => Or.inl hp) h
+        intro x hx
+        rcases mem_append_singleton hx with hx | hx
+        · exact h.rejectedRej x hx
+        · subst hx; exact hf
       | die =>
-        have e1 : step fate s (.finish w) = { s with workers := s.workers.set w .dead, lost := s.lost ++ [y] } := by
+        have e1 : step fate s (.parsed w) = { s with workers := s.workers.set w .dead, lost := s.lost ++ [y] } := by
           simp [step, hh2, hf]
-        rw [e1] at hstop' ⊢
-        refine ⟨hstop', h.shape, h.doneTodo, h.past, ?_, ?_, ?_, h.mergedOk, h.rejectedRej⟩
-        · intro hex; simp only [cnt .dead (by decide)] at hex; exact h.exitedNoSome hex
-        · intro j hj; exact keep _ j .exited (fun z => by intro e; cases e) (h.joined j hj)
-        · intro _; exact ⟨w, getD_set_eq _ _ _ _ hw⟩
+        rw [e1] at hmx' ⊢
+        exact flowInv_slot fate s _ w _ hold (by simp) rfl rfl rfl rfl rfl rfl hmx' h.mergedOk h.rejectedRej
+          (fun _ => Or.inr rfl) (fun x hx => by cases hx) (fun hp => Or.inl hp) h
     | idle => simp only [enabled, hh] at he; simp at he
+    | batch _ => simp only [enabled, hh] at he; simp at he
+    | merging _ _ => simp only [enabled, hh] at he; simp at he
     | exited => simp only [enabled, hh] at he; simp at he
     | dead => simp only [enabled, hh] at he; simp at he
+  | lock w =>
+    cases hh : s.workers.getD w .exited with
+    | batch y =>
+      have hh2 : s.workers[w]?.getD W.exited = W.batch y := by
+        rw [← List.getD_eq_getElem?_getD]; exact hh
+      have hold : (s.workers.getD w .exited).alive = true := by rw [hh]; rfl
+      have hy : fate y = .ok := h.batchOk w y hh
+      cases hp : s.poisoned with
+      | true =>
+        have e1 : step fate s (.lock w) = { s with workers := s.workers.set w .dead, lost := s.lost ++ [y] } := by
+          simp [step, hh2, hp]
+        rw [e1] at hmx' ⊢
+        exact flowInv_slot fate s _ w _ hold (by simp) rfl rfl rfl rfl rfl rfl hmx' h.mergedOk h.rejectedRej
+          (fun _ => Or.inr rfl) (fun x hx => by cases hx) (fun hp => Or.inl hp) h
+      | false =>
+        have e1 : step fate s (.lock w) = { s with workers := s.workers.set w (.merging y 0), owner := some w, merged := s.merged ++ [y] } := by
+          simp [step, hh2, hp]
+        rw [e1] at hmx' ⊢
+        refine flowInv_slot fate s _ w _ hold (by simp) rfl rfl rfl rfl rfl rfl hmx' ?_ h.rejectedRej
+          (fun hl => Or.inl hl) (fun x hx => by cases hx) (fun hp => Or.inl hp) h
+        intro x hx
+        rcases mem_append_singleton hx with hx | hx
+        · exact h.mergedOk x hx
+        · subst hx; exact hy
+    | idle => simp only [enabled, hh] at he; simp at he
+    | holding _ => simp only [enabled, hh] at he; simp at he
+    | merging _ _ => simp only [enabled, hh] at he; simp at he
+    | exited => simp only [enabled, hh] at he; simp at he
+    | dead => simp only [enabled, hh] at he; simp at he
+  | mergeEntry w =>
+    cases hh : s.workers.getD w .exited with
+    | merging y j =>
+      have hh2 : s.workers[w]?.getD W.exited = W.merging y j := by
+        rw [← List.getD_eq_getElem?_getD]; exact hh
+      have hold : (s.workers.getD w .exited).alive = true := by rw [hh]; rfl
+      have e1 : step fate s (.mergeEntry w) = { s with workers := s.workers.set w (.merging y (j + 1)), log := s.log ++ [(y, j)] } := by
+        simp [step, hh2]
+      rw [e1] at hmx' ⊢
+      exact flowInv_slot fate s _ w _ hold (by simp) rfl rfl rfl rfl rfl rfl hmx' h.mergedOk h.rejectedRej
+        (fun hl => Or.inl hl) (fun x hx => by cases hx) (fun hp => Or.inl hp) h
+    | idle => simp only [enabled, hh] at he; simp at he
+    | holding _ => simp only [enabled, hh] at he; simp at he
+    | batch _ => simp only [enabled, hh] at he; simp at he
+    | exited => simp only [enabled, hh] at he; simp at he
+    | dead => simp only [enabled, hh] at he; simp at he
+  | unlock w =>
+    cases hh : s.workers.getD w .exited with
+    | merging y j =>
+      have hh2 : s.workers[w]?.getD W.exited = W.merging y j := by
+        rw [← List.getD_eq_getElem?_getD]; exact hh
+      have hold : (s.workers.getD w .exited).alive = true := by rw [hh]; rfl
+      have e1 : step fate s (.unlock w) = { s with workers := s.workers.set w .idle, owner := none } := by
+        simp [step, hh2]
+      rw [e1] at hmx' ⊢
+      exact flowInv_slot fate s _ w _ hold (by simp) rfl rfl rfl rfl rfl rfl hmx' h.mergedOk h.rejectedRej
+        (fun hl => Or.inl hl) (fun x hx => by cases hx) (fun hp => Or.inl hp) h
+    | idle => simp only [enabled, hh] at he; simp at he
+    | holding _ => simp only [enabled, hh] at he; simp at he
+    | batch _ => simp only [enabled, hh] at he; simp at he
+    | exited => simp only [enabled, hh] at he; simp at he
+    | dead => simp only [enabled, hh] at he; simp at he
+  | workerDies w =>
+    cases hh : s.workers.getD w .exited with
+    | idle =>
+      have hh2 : s.workers[w]?.getD W.exited = W.idle := by
+        rw [← List.getD_eq_getElem?_getD]; exact hh
+      have hold : (s.workers.getD w .exited).alive = true := by rw [hh]; rfl
+      have e1 : step fate s (.workerDies w) = { s with workers := s.workers.set w .dead } := by
+        simp [step, hh2]
+      rw [e1] at hmx' ⊢
+      exact flowInv_slot fate s _ w _ hold (by simp) rfl rfl rfl rfl rfl rfl hmx' h.mergedOk h.rejectedRej
+        (fun hl => Or.inl hl) (fun x hx => by cases hx) (fun hp => Or.inl hp) h
+    | holding y =>
+      have hh2 : s.workers[w]?.getD W.exited = W.holding y := by
+        rw [← List.getD_eq_getElem?_getD]; exact hh
+      have hold : (s.workers.getD w .exited).alive = true := by rw [hh]; rfl
+      have e1 : step fate s (.workerDies w) = { s with workers := s.workers.set w .dead, lost := s.lost ++ [y] } := by
+        simp [step, hh2]
+      rw [e1] at hmx' ⊢
+      exact flowInv_slot fate s _ w _ hold (by simp) rfl rfl rfl rfl rfl rfl hmx' h.mergedOk h.rejectedRej
+        (fun _ => Or.inr rfl) (fun x hx => by cases hx) (fun hp => Or.inl hp) h
+    | batch y =>
+      have hh2 : s.workers[w]?.getD W.exited = W.batch y := by
+        rw [← List.getD_eq_getElem?_getD]; exact hh
+      have hold : (s.workers.getD w .exited).alive = true := by rw [hh]; rfl
+      have e1 : step fate s (.workerDies w) = { s with workers := s.workers.set w .dead, lost := s.lost ++ [y] } := by
+        simp [step, hh2]
+      rw [e1] at hmx' ⊢
+      exact flowInv_slot fate s _ w _ hold (by simp) rfl rfl rfl rfl rfl rfl hmx' h.mergedOk h.rejectedRej
+        (fun _ => Or.inr rfl) (fun x hx => by cases hx) (fun hp => Or.inl hp) h
+    | merging y j =>
+      have hh2 : s.workers[w]?.getD W.exited = W.merging y j := by
+        rw [← List.getD_eq_getElem?_getD]; exact hh
+      have hold : (s.workers.getD w .exited).alive = true := by rw [hh]; rfl
+      have e1 : step fate s (.workerDies w) = { s with workers := s.workers.set w .dead, owner := none, poisoned := true } := by
+        simp [step, hh2]
+      rw [e1] at hmx' ⊢
+      exact flowInv_slot fate s _ w _ hold (by simp) rfl rfl rfl rfl rfl rfl hmx' h.mergedOk h.rejectedRej
+        (fun hl => Or.inl hl) (fun x hx => by cases hx) (fun _ => Or.inr rfl) h
+    | exited => simp only [enabled, hh] at he; simp [W.alive] at he
+    | dead => simp only [enabled, hh] at he; simp [W.alive] at he
   | main =>
     cases hpc : s.mainPc with
     | joinProd =>
       simp only [enabled, hpc, Bool.or_eq_true] at he
       by_cases hpx : s.prodDead = true
       · have e1 : step fate s .main = { s with mainPc := .done 1 } := by simp [step, hpc, hpx]
-        rw [e1] at hstop' ⊢
-        refine ⟨hstop', h.shape, h.doneTodo, Or.inr (Or.inr rfl), h.exitedNoSome, ?_, h.lostDead, h.mergedOk, h.rejectedRej⟩
+        rw [e1] at hstop' hmx' ⊢
+        refine ⟨hstop', h.shape, h.doneTodo, Or.inr (Or.inr rfl), h.exitedNoSome, ?_, h.lostDead,
+          h.mergedOk, h.rejectedRej, hmx', h.batchOk, h.poisonDead⟩
         intro j hj; simp at hj
       · have hpd : s.prodDone = true := by rcases he with he | he; exact he; exact absurd he hpx
         have e1 : step fate s .main = { s with mainPc := .stops 0 } := by simp [step, hpc, hpx]
-        rw [e1] at hstop' ⊢
-        refine ⟨hstop', h.shape, h.doneTodo, Or.inr (Or.inl hpd), h.exitedNoSome, ?_, h.lostDead, h.mergedOk, h.rejectedRej⟩
+        rw [e1] at hstop' hmx' ⊢
+        refine ⟨hstop', h.shape, h.doneTodo, Or.inr (Or.inl hpd), h.exitedNoSome, ?_, h.lostDead,
+          h.mergedOk, h.rejectedRej, hmx', h.batchOk, h.poisonDead⟩
         intro j hj; simp at hj
     | stops k =>
       have hpast : s.prodDone = true ∨ s.mainPc = .done 1 := by
@@ -802,19 +1361,22 @@ theorem step_flowInv (fate : Item → Fate) (s : State) (st : Step) (he : enable
         · rw [hpc] at h1; cases h1
       by_cases hk : k ≥ s.n
       · have e1 : step fate s .main = { s with mainPc := .joinWorkers 0 } := by simp [step, hpc, hk]
-        rw [e1] at hstop' ⊢
-        refine ⟨hstop', h.shape, h.doneTodo, hpast' _, h.exitedNoSome, ?_, h.lostDead, h.mergedOk, h.rejectedRej⟩
+        rw [e1] at hstop' hmx' ⊢
+        refine ⟨hstop', h.shape, h.doneTodo, hpast' _, h.exitedNoSome, ?_, h.lostDead, h.mergedOk,
+          h.rejectedRej, hmx', h.batchOk, h.poisonDead⟩
         intro j hj; simp at hj
       · by_cases hr : receiversAlive s = true
         · have e1 : step fate s .main = { s with mainPc := .stops (k + 1), queue := s.queue ++ [none] } := by
             simp [step, hpc, hk, hr]
-          rw [e1] at hstop' ⊢
-          refine ⟨hstop', qShape_append_none _ h.shape, h.doneTodo, hpast' _, ?_, ?_, h.lostDead, h.mergedOk, h.rejectedRej⟩
+          rw [e1] at hstop' hmx' ⊢
+          refine ⟨hstop', qShape_append_none _ h.shape, h.doneTodo, hpast' _, ?_, ?_, h.lostDead,
+            h.mergedOk, h.rejectedRej, hmx', h.batchOk, h.poisonDead⟩
           · intro hex; simp only [List.all_append, h.exitedNoSome hex]; rfl
           · intro j hj; simp at hj
         · have e1 : step fate s .main = { s with mainPc := .joinWorkers 0 } := by simp [step, hpc, hk, hr]
-          rw [e1] at hstop' ⊢
-          refine ⟨hstop', h.shape, h.doneTodo, hpast' _, h.exitedNoSome, ?_, h.lostDead, h.mergedOk, h.rejectedRej⟩
+          rw [e1] at hstop' hmx' ⊢
+          refine ⟨hstop', h.shape, h.doneTodo, hpast' _, h.exitedNoSome, ?_, h.lostDead, h.mergedOk,
+            h.rejectedRej, hmx', h.batchOk, h.poisonDead⟩
           intro j hj; simp at hj
     | joinWorkers i =>
       have hpast' : ∀ pc, pc = MainPc.joinProd ∨ s.prodDone = true ∨ pc = .done 1 := by
@@ -826,8 +1388,9 @@ theorem step_flowInv (fate : Item → Fate) (s : State) (st : Step) (he : enable
         intro j hj; have := h.joined j; rw [hpc] at this; exact this hj
       by_cases hi : i ≥ s.n
       · have e1 : step fate s .main = { s with mainPc := .done 0 } := by simp [step, hpc, hi]
-        rw [e1] at hstop' ⊢
-        refine ⟨hstop', h.shape, h.doneTodo, hpast' _, h.exitedNoSome, ?_, h.lostDead, h.mergedOk, h.rejectedRej⟩
+        rw [e1] at hstop' hmx' ⊢
+        refine ⟨hstop', h.shape, h.doneTodo, hpast' _, h.exitedNoSome, ?_, h.lostDead, h.mergedOk,
+          h.rejectedRej, hmx', h.batchOk, h.poisonDead⟩
         intro j hj; simp only at hj; exact hj0 j (by omega)
       · simp only [enabled, hpc, Bool.or_eq_true, decide_eq_true_eq] at he
         have hna : (s.workers.getD i .exited).alive = false := by
@@ -840,15 +1403,17 @@ theorem step_flowInv (fate : Item → Fate) (s : State) (st : Step) (he : enable
           have hwi2 : s.workers[i]?.getD W.exited = W.dead := by
             rw [← List.getD_eq_getElem?_getD]; exact hwi
           have e1 : step fate s .main = { s with mainPc := .done 1 } := by simp [step, hpc, hi, hwi2]
-          rw [e1] at hstop' ⊢
-          refine ⟨hstop', h.shape, h.doneTodo, Or.inr (Or.inr rfl), h.exitedNoSome, ?_, h.lostDead, h.mergedOk, h.rejectedRej⟩
+          rw [e1] at hstop' hmx' ⊢
+          refine ⟨hstop', h.shape, h.doneTodo, Or.inr (Or.inr rfl), h.exitedNoSome, ?_, h.lostDead,
+            h.mergedOk, h.rejectedRej, hmx', h.batchOk, h.poisonDead⟩
           intro j hj; simp at hj
         | exited =>
           have hwi2 : s.workers[i]?.getD W.exited = W.exited := by
             rw [← List.getD_eq_getElem?_getD]; exact hwi
           have e1 : step fate s .main = { s with mainPc := .joinWorkers (i + 1) } := by simp [step, hpc, hi, hwi2]
-          rw [e1] at hstop' ⊢
-          refine ⟨hstop', h.shape, h.doneTodo, hpast' _, h.exitedNoSome, ?_, h.lostDead, h.mergedOk, h.rejectedRej⟩
+          rw [e1] at hstop' hmx' ⊢
+          refine ⟨hstop', h.shape, h.doneTodo, hpast' _, h.exitedNoSome, ?_, h.lostDead, h.mergedOk,
+            h.rejectedRej, hmx', h.batchOk, h.poisonDead⟩
           intro j hj; simp only at hj
           by_cases hji : j = i
           · subst hji
@@ -856,14 +1421,15 @@ theorem step_flowInv (fate : Item → Fate) (s : State) (st : Step) (he : enable
           · exact hj0 j (by omega)
         | idle => rw [hwi] at hna; simp [W.alive] at hna
         | holding y => rw [hwi] at hna; simp [W.alive] at hna
+        | batch y => rw [hwi] at hna; simp [W.alive] at hna
+        | merging y j => rw [hwi] at hna; simp [W.alive] at hna
     | done c => simp [enabled, hpc] at he
 
-
-theorem run_flowInv {fate : Item → Fate} {s s' : State} {tr : List Step} (h : Run fate s tr s')
-    (hi : FlowInv fate s) : FlowInv fate s' := by
+theorem run_flowInv {fate : Item → Fate} {size : Item → Nat} {s s' : State} {tr : List Step}
+    (h : Run fate size s tr s') (hi : FlowInv fate s) : FlowInv fate s' := by
   induction h with
   | nil => exact hi
-  | cons he _ ih => exact ih (step_flowInv fate _ _ he hi)
+  | cons he _ ih => exact ih (step_flowInv fate _ _ _ he hi)
 
 theorem held_all_exited (ws : List W) (h : ∀ w ∈ ws, w = W.exited) : held ws = [] := by
   induction ws with
@@ -873,10 +1439,11 @@ theorem held_all_exited (ws : List W) (h : ∀ w ∈ ws, w = W.exited) : held ws
     subst ha
     simpa [held] using ih fun w hw => h w (List.mem_cons_of_mem _ hw)
 
-/-- at `done 0` everything that was an input has been merged or rejected -/
+/-- at `done 0` everything that was an input has been merged or rejected, every worker has
+returned (so none is inside `add_results`) -/
 theorem done0_all_accounted (fate : Item → Fate) (s : State) (h : FlowInv fate s) (hn : 1 ≤ s.n)
     (hd : s.mainPc = .done 0) :
-    s.todo = [] ∧ queueItems s = [] ∧ held s.workers = [] ∧ s.lost = [] := by
+    s.todo = [] ∧ queueItems s = [] ∧ held s.workers = [] ∧ s.lost = [] ∧ s.owner = none := by
   have hlen := h.stop.1
   have hall : ∀ w ∈ s.workers, w = W.exited := by
     intro w hw
@@ -892,7 +1459,12 @@ theorem done0_all_accounted (fate : Item → Fate) (s : State) (h : FlowInv fate
     · rw [hd] at h1; cases h1
     · exact h1
     · rw [hd] at h1; cases h1
-  refine ⟨h.doneTodo hpd, ?_, held_all_exited _ hall, ?_⟩
+  have hgetD : ∀ j, s.workers.getD j .exited = .exited := by
+    intro j
+    by_cases hjl : j < s.workers.length
+    · rw [List.getD_eq_getElem?_getD, List.getElem?_eq_getElem hjl]; exact hall _ (List.getElem_mem hjl)
+    · rw [List.getD_eq_getElem?_getD, List.getElem?_eq_none (Nat.le_of_not_lt hjl)]; rfl
+  refine ⟨h.doneTodo hpd, ?_, held_all_exited _ hall, ?_, ?_⟩
   · simp only [queueItems]
     rw [List.filterMap_eq_nil_iff]
     intro e he
@@ -908,5 +1480,213 @@ theorem done0_all_accounted (fate : Item → Fate) (s : State) (h : FlowInv fate
         rw [this] at hj; cases hj
       · rw [List.getD_eq_getElem?_getD, List.getElem?_eq_none (Nat.le_of_not_lt hjl)] at hj
         simp at hj
+  · cases ho : s.owner with
+    | none => rfl
+    | some o =>
+      have := h.mutex.1 o ho
+      rw [hgetD o] at this; cases this
+
+/-! ### refinement: the writes to the result map are whole batches in lock-acquisition order -/
+
+/-- the writes one batch consists of -/
+def entriesOf (size : Item → Nat) (x : Item) : List (Item × Nat) :=
+  (List.range (size x)).map fun j => (x, j)
+
+/-- As long as no worker died inside `add_results`: when the mutex is free the write log is the
+concatenation of the complete batches of `merged` (the order of the lock acquisitions); when worker
+`w` holds it, the log is that for all but the last item of `merged`, followed by the first `j`
+writes of the last one, which is the one `w` is merging. -/
+def LogInv (size : Item → Nat) (s : State) : Prop :=
+  s.poisoned = false →
+    match s.owner with
+    | none => s.log = s.merged.flatMap (entriesOf size)
+    | some w => ∃ pre x j, s.workers.getD w .exited = .merging x j ∧ j ≤ size x ∧
+        s.merged = pre ++ [x] ∧
+        s.log = pre.flatMap (entriesOf size) ++ (List.range j).map fun i => (x, i)
+
+theorem logInv_init (size : Item → Nat) (n : Nat) (rx : Bool) (items : List Item) :
+    LogInv size (init n rx items) := by
+  intro _; simp [init]
+
+/-- a step on a worker that is not inside `add_results` and that leaves the map alone -/
+theorem logInv_other (size : Item → Nat) (s s' : State) (w : Nat) (new : W)
+    (hold : isMerging (s.workers.getD w .exited) = false)
+    (hws : s'.workers = s.workers.set w new) (ho : s'.owner = s.owner) (hp : s'.poisoned = s.poisoned)
+    (hm : s'.merged = s.merged) (hl : s'.log = s.log) (hmx : MutexInv s) (h : LogInv size s) :
+    LogInv size s' := by
+  intro hp'
+  rw [hp] at hp'
+  have := h hp'
+  rw [ho, hm, hl]
+  cases hown : s.owner with
+  | none => rw [hown] at this; exact this
+  | some o =>
+    rw [hown] at this
+    obtain ⟨pre, x, j, h1, h2, h3, h4⟩ := this
+    refine ⟨pre, x, j, ?_, h2, h3, h4⟩
+    rw [hws]
+    have how : w ≠ o := by
+      intro e; subst e; rw [h1] at hold; cases hold
+    rw [getD_set_ne _ _ _ _ _ how]; exact h1
+
+theorem step_logInv (fate : Item → Fate) (size : Item → Nat) (s : State) (st : Step)
+    (he : enabled size s st = true) (hmx : MutexInv s) (h : LogInv size s) :
+    LogInv size (step fate s st) := by
+  cases st with
+  | prodSend =>
+    simp only [step]
+    split
+    · exact h
+    · split <;> exact h
+  | prodExit => exact h
+  | prodDies => exact h
+  | main =>
+    simp only [step]
+    split
+    · split <;> exact h
+    · split
+      · exact h
+      · split <;> exact h
+    · split
+      · exact h
+      · split <;> exact h
+    · exact h
+  | recv w =>
+    simp only [enabled, Bool.and_eq_true, beq_iff_eq] at he
+    have hidle := he.1.2
+    simp only [step]
+    split
+    · exact h
+    · exact logInv_other size s _ w _ (by rw [hidle]; rfl) rfl rfl rfl rfl rfl hmx h
+    · exact logInv_other size s _ w _ (by rw [hidle]; rfl) rfl rfl rfl rfl rfl hmx h
+  | parsed w =>
+    simp only [step]
+    cases hh : s.workers.getD w .exited with
+    | holding y =>
+      simp only
+      cases fate y with
+      | ok => exact logInv_other size s _ w _ (by rw [hh]; rfl) rfl rfl rfl rfl rfl hmx h
+      | reject => exact logInv_other size s _ w _ (by rw [hh]; rfl) rfl rfl rfl rfl rfl hmx h
+      | die => exact logInv_other size s _ w _ (by rw [hh]; rfl) rfl rfl rfl rfl rfl hmx h
+    | idle => exact h
+    | batch _ => exact h
+    | merging _ _ => exact h
+    | exited => exact h
+    | dead => exact h
+  | lock w =>
+    simp only [enabled, Bool.and_eq_true] at he
+    have hfree : s.owner = none := by simpa using he.1.2
+    simp only [step]
+    cases hh : s.workers.getD w .exited with
+    | batch y =>
+      simp only
+      split
+      · exact logInv_other size s _ w _ (by rw [hh]; rfl) rfl rfl rfl rfl rfl hmx h
+      · intro hp'
+        have hp0 : s.poisoned = false := hp'
+        have := h hp0
+        rw [hfree] at this
+        have hw : w < s.workers.length := getD_ne_default_lt (by rw [hh]; simp)
+        refine ⟨s.merged, y, 0, ?_, Nat.zero_le _, rfl, ?_⟩
+        · show (s.workers.set w (.merging y 0)).getD w .exited = .merging y 0
+          exact getD_set_eq _ _ _ _ hw
+        · show s.log = _
+          simpa using this
+    | idle => exact h
+    | holding _ => exact h
+    | merging _ _ => exact h
+    | exited => exact h
+    | dead => exact h
+  | mergeEntry w =>
+    simp only [step]
+    cases hh : s.workers.getD w .exited with
+    | merging y j =>
+      have hw : w < s.workers.length := getD_ne_default_lt (by rw [hh]; simp)
+      have hj : j < size y := by
+        have hh' : s.workers[w]?.getD W.exited = W.merging y j := by
+          rw [← List.getD_eq_getElem?_getD]; exact hh
+        have := he
+        simp [enabled, hh'] at this
+        exact this.2
+      have how : s.owner = some w := hmx.2 w (by rw [hh]; rfl)
+      intro hp'
+      have hp0 : s.poisoned = false := hp'
+      have := h hp0
+      rw [how] at this
+      obtain ⟨pre, x, j', h1, h2, h3, h4⟩ := this
+      rw [hh] at h1
+      cases h1
+      show match s.owner with | none => _ | some w => _
+      rw [how]
+      refine ⟨pre, y, j + 1, ?_, by omega, h3, ?_⟩
+      · show (s.workers.set w (.merging y (j + 1))).getD w .exited = _
+        exact getD_set_eq _ _ _ _ hw
+      · show s.log ++ [(y, j)] = _
+        rw [h4, List.range_succ, List.map_append, List.append_assoc]; rfl
+    | idle => exact h
+    | holding _ => exact h
+    | batch _ => exact h
+    | exited => exact h
+    | dead => exact h
+  | unlock w =>
+    simp only [step]
+    cases hh : s.workers.getD w .exited with
+    | merging y j =>
+      have hj : size y ≤ j := by
+        have hh' : s.workers[w]?.getD W.exited = W.merging y j := by
+          rw [← List.getD_eq_getElem?_getD]; exact hh
+        have := he
+        simp [enabled, hh'] at this
+        exact this.2
+      have how : s.owner = some w := hmx.2 w (by rw [hh]; rfl)
+      intro hp'
+      have hp0 : s.poisoned = false := hp'
+      have := h hp0
+      rw [how] at this
+      obtain ⟨pre, x, j', h1, h2, h3, h4⟩ := this
+      rw [hh] at h1
+      cases h1
+      have hje : j = size y := by omega
+      show s.log = s.merged.flatMap (entriesOf size)
+      rw [h4, h3, hje, List.flatMap_append]
+      simp [entriesOf]
+    | idle => exact h
+    | holding _ => exact h
+    | batch _ => exact h
+    | exited => exact h
+    | dead => exact h
+  | workerDies w =>
+    simp only [step]
+    cases hh : s.workers.getD w .exited with
+    | merging y j => intro hp'; cases hp'
+    | idle => exact logInv_other size s _ w _ (by rw [hh]; rfl) rfl rfl rfl rfl rfl hmx h
+    | holding _ => exact logInv_other size s _ w _ (by rw [hh]; rfl) rfl rfl rfl rfl rfl hmx h
+    | batch _ => exact logInv_other size s _ w _ (by rw [hh]; rfl) rfl rfl rfl rfl rfl hmx h
+    | exited => exact h
+    | dead => exact h
+
+theorem run_logInv {fate : Item → Fate} {size : Item → Nat} {s s' : State} {tr : List Step}
+    (h : Run fate size s tr s') (hm : MutexInv s) (hi : LogInv size s) : LogInv size s' := by
+  induction h with
+  | nil => exact hi
+  | cons he _ ih => exact ih (step_mutexInv _ _ _ _ he hm) (step_logInv _ _ _ _ he hm hi)
+
+theorem filterMap_range'_getElem? {α : Type} (l pre : List α) :
+    (List.range' pre.length l.length).filterMap (fun j => (pre ++ l)[j]?) = l := by
+  induction l generalizing pre with
+  | nil => simp
+  | cons a l ih =>
+    have h1 : (pre ++ a :: l)[pre.length]? = some a := by simp
+    have h2 := ih (pre ++ [a])
+    simp only [List.length_append, List.length_cons, List.length_nil, List.append_assoc,
+      List.singleton_append, Nat.zero_add] at h2
+    simp only [List.length_cons, List.range'_succ, List.filterMap_cons, h1]
+    exact congrArg _ h2
+
+/-- reading a list back through its indices -/
+theorem filterMap_range_getElem? {α : Type} (l : List α) :
+    (List.range l.length).filterMap (fun j => l[j]?) = l := by
+  have := filterMap_range'_getElem? l []
+  simpa [List.range_eq_range'] using this
 
 end Grcov.Pipeline
